@@ -117,16 +117,26 @@ class ScheduledPool:
         pass
 
 
+_PRISTINE = {}
+
+
 def reset_globals():
-    """Fresh process-global data-quality / sampler state (what a fresh interpreter has)."""
-    from collections import Counter
+    """Fresh process-global data-quality / sampler state (what a fresh interpreter has).  The
+    pristine values are deep-copied from the module the first time this is called (right after
+    import, before any use), so the reset never imposes a type of its own on the globals."""
+    import copy
 
     import outrank.core_ranking as CR
-    CR.GLOBAL_CARDINALITY_STORAGE.clear()
-    CR.GLOBAL_COUNTS_STORAGE.clear()
-    CR.GLOBAL_RARE_VALUE_STORAGE = Counter()
-    CR.GLOBAL_PRIOR_COMB_COUNTS.clear()
-    CR.IGNORED_VALUES = set()
+    names = ('GLOBAL_CARDINALITY_STORAGE', 'GLOBAL_COUNTS_STORAGE', 'GLOBAL_RARE_VALUE_STORAGE', 'GLOBAL_PRIOR_COMB_COUNTS', 'IGNORED_VALUES')
+    if not _PRISTINE:
+        for n in names:
+            _PRISTINE[n] = copy.deepcopy(getattr(CR, n))
+    for n in names:
+        cur = getattr(CR, n)
+        if n in ('GLOBAL_CARDINALITY_STORAGE', 'GLOBAL_COUNTS_STORAGE', 'GLOBAL_PRIOR_COMB_COUNTS') and hasattr(cur, 'clear') and not _PRISTINE[n]:
+            cur.clear()          # keep the object identity other modules may hold
+        else:
+            setattr(CR, n, copy.deepcopy(_PRISTINE[n]))
 
 
 def quiet():
